@@ -485,12 +485,13 @@ Section SanitizeProofs.
 
   (* the inputs on which sanitised names collide: Fields_collide and
      Field_collides_extra are rejected by struct_members since fix 5896b59;
-     Known_F2 (definitions) still produces duplicate items (finding C08-F2) *)
+     Defs_collide (definitions of one call) is rejected by add_ref_types_impl
+     since fix c22ef06 *)
   Definition Fields_collide (props : list ustring) : Prop :=
     exists p1 p2, In p1 props /\ In p2 props /\ p1 <> p2 /\ sanitize cls p1 Snake = sanitize cls p2 Snake.
   Definition Field_collides_extra (props : list ustring) (typed_additional : bool) : Prop :=
     typed_additional = true /\ exists p, In p props /\ sanitize cls p Snake = s_extra.
-  Definition Known_F2 (defs : list ustring) : Prop :=
+  Definition Defs_collide (defs : list ustring) : Prop :=
     exists d1 d2, In d1 defs /\ In d2 defs /\ d1 <> d2 /\ sanitize cls d1 Pascal = sanitize cls d2 Pascal.
 
   Lemma NoDup_map_inj_on : forall (A B : Type) (f : A -> B) (l : list A),
@@ -593,12 +594,43 @@ Section SanitizeProofs.
   Qed.
 
   Theorem defs_distinct_excl : forall defs,
-      NoDup defs -> ~ Known_F2 defs -> NoDup (def_idents cls defs).
+      NoDup defs -> ~ Defs_collide defs -> NoDup (def_idents cls defs).
   Proof.
     intros defs Hn H2. unfold def_idents.
     apply NoDup_map_inj_on; [exact Hn|]. intros x y Hx Hy E.
     destruct (ustring_eq_dec x y) as [|Hne]; [assumption|].
     exfalso. apply H2. exists x, y. auto.
+  Qed.
+
+  (* definitions of one call: distinct valid item names, or Err -- never
+     duplicates (lib.rs add_ref_types_impl, batch_names) *)
+  Theorem add_definitions_distinct_or_err : forall defs ids,
+      add_definitions cls defs = Ok ids ->
+      NoDup ids /\ ids = List.map (fun d => sanitize cls d Pascal) defs /\
+      Forall (fun i => syn_ident_ok cls i = true) ids.
+  Proof.
+    intros defs ids H. unfold add_definitions in H.
+    destruct (unique (def_idents cls defs)) eqn:E; [|discriminate].
+    injection H as <-. split; [apply unique_NoDup; exact E|]. split; [reflexivity|].
+    apply Forall_forall. intros i Hi. unfold def_idents in Hi. apply in_map_iff in Hi.
+    destruct Hi as [d [<- _]]. apply sanitize_accepted.
+  Qed.
+
+  Theorem add_definitions_ok_without_collision : forall defs,
+      NoDup defs -> ~ Defs_collide defs -> exists ids, add_definitions cls defs = Ok ids.
+  Proof.
+    intros defs Hn H2. unfold add_definitions.
+    pose proof (defs_distinct_excl defs Hn H2) as Hd. apply unique_NoDup in Hd.
+    rewrite Hd. eexists. reflexivity.
+  Qed.
+
+  Theorem add_definitions_err_on_collision : forall defs,
+      Defs_collide defs -> add_definitions cls defs = Err.
+  Proof.
+    intros defs [d1 [d2 [H1 [H2 [Hne Hs]]]]]. unfold add_definitions.
+    destruct (unique (def_idents cls defs)) eqn:E; [|reflexivity].
+    exfalso. apply unique_NoDup in E. unfold def_idents in E.
+    apply Hne. exact (NoDup_map_In_inj _ _ _ _ _ _ E H1 H2 Hs).
   Qed.
 
   (* ---------------------------------------------------------------- *)
@@ -697,14 +729,16 @@ Proof.
   split; vm_compute; reflexivity.
 Qed.
 
-Theorem Known_F2_fails :
-  NoDup w_f2 /\ Known_F2 ascii_classes w_f2 /\ ~ NoDup (def_idents ascii_classes w_f2).
+(* the former witness of C08-F2 is rejected (regression case) *)
+Theorem defs_witness_rejected :
+  NoDup w_f2 /\ Defs_collide ascii_classes w_f2 /\ add_definitions ascii_classes w_f2 = Err /\
+  add_definitions ascii_classes [ustr "foo"; ustr "bar"] = Ok [ustr "Foo"; ustr "Bar"].
 Proof.
   split; [apply NoDup_by_unique; vm_compute; reflexivity|]. split.
   - exists (ustr "foo"), (ustr "Foo"). split; [left; reflexivity|].
     split; [right; left; reflexivity|]. split; [intro E; vm_compute in E; discriminate|].
     vm_compute. reflexivity.
-  - apply dup_by_unique. vm_compute. reflexivity.
+  - split; vm_compute; reflexivity.
 Qed.
 
 (* variants: the X fallback and the panic are both reachable *)
